@@ -517,7 +517,12 @@ impl World {
         let g = self.lock();
         let mut h = 0u64;
         for (k, v) in g.objects.iter() {
-            h = crate::rng::mix(&[h, crate::rng::hash_str(k), v.data.len() as u64]);
+            // index files are excluded by size: some index builders (n-gram) lay their files out
+            // in an order that depends on worker-thread timing; query results do not
+            let size = if path_class(k) == PathClass::Index { 0 } else { v.data.len() as u64 };
+            // names are canonicalised (random uuids drawn by worker threads are not reproducible)
+            // and the combination is order independent
+            h = h.wrapping_add(crate::rng::mix(&[crate::rng::hash_str(&canon_path(k)), size]));
         }
         h
     }
